@@ -21,7 +21,7 @@ const char *MC_ASSUME[] = {"sanitizers decide memory safety; argument values out
 const char *MC_CTR_NAMES[] = {"api_calls", "calls_returning_error", "calls_succeeding", "documented_code_checks", "skipped_too_large", "seq_new_classes", NULL};
 const char *MC_MAX_NAMES[] = {NULL};
 #define CANARY 0xC0FFEE0DDEADBEEFull
-enum { OP_UN, OP_BIN, OP_DBL, OP_INTS, OP_POLYAGG, OP_SETAGG, OP_DBLPOLY };
+enum { OP_UN, OP_BIN, OP_DBL, OP_INTS, OP_POLYAGG, OP_SETAGG, OP_DBLPOLY, OP_POLYCAP };
 
 static uint64_t nerr_, nok_;
 static inline H3Error R(H3Error e, const char *fn) {
@@ -303,6 +303,33 @@ static void op_dblpoly(const McArg *a) {
     }
     flush();
 }
+// polycap(shape, anchor, scale, res): well-formed catalogue polygon, every containment mode, with output buffers SMALLER than the result
+// (malloc'd at exactly the capacity passed, so ASan sees the first cell written beyond it): E_MEMORY_BOUNDS is the documented answer
+static void op_polycap(const McArg *a) {
+    static Poly p;
+    if (poly_build((int)a[0].i, (int)a[1].i, (int)a[2].i, (int)a[3].i, &p)) return;
+    for (uint32_t fl = 0; fl < 4; fl++) {
+        int64_t sz = -1, cnt = 0;
+        if (CALL(maxPolygonToCellsSizeExperimental(&p.gp, p.res, fl, &sz), "maxPolygonToCellsSizeExperimental") || sz <= 0 || sz > 50000) continue;
+        uint64_t *full = calloc(sz, 8);
+        if (CALL(polygonToCellsExperimental(&p.gp, p.res, fl, sz, full), "polygonToCellsExperimental") == 0)
+            for (int64_t i = 0; i < sz; i++) cnt += full[i] != 0;
+        free(full);
+        if (cnt < 2) continue;
+        int64_t caps[] = {0, 1, 2, cnt / 7, cnt / 3, cnt / 2, cnt - 8, cnt - 2, cnt - 1};
+        for (unsigned q = 0; q < sizeof caps / sizeof *caps; q++) {
+            int64_t cap = caps[q];
+            if (cap < 0 || cap >= cnt) continue;
+            uint64_t *out = malloc(cap ? cap * 8 : 1);
+            memset(out, 0, cap * 8);
+            char what[128];
+            snprintf(what, sizeof what, "polygonToCellsExperimental(capacity %" PRId64 " < %" PRId64 " cells, mode %u)", cap, cnt, fl);
+            want(CALL(polygonToCellsExperimental(&p.gp, p.res, fl, cap, out), "polygonToCellsExperimental"), E_MEMORY_BOUNDS, 1, what);
+            free(out);
+        }
+    }
+    flush();
+}
 static void op_ints(const McArg *a) {
     int r = (int)a[0].i, bad = r < 0 || r > 15;
     double d;
@@ -487,8 +514,8 @@ static void op_setagg(const McArg *a) {
     uv_free(&s);
     flush();
 }
-const McOp MC_OPS[] = {{"un", "h", op_un}, {"bin", "hhi", op_bin}, {"dbl", "dddd", op_dbl}, {"ints", "i", op_ints}, {"polyagg", "iii", op_polyagg}, {"setagg", "ii", op_setagg}, {"dblpoly", "dddd", op_dblpoly}};
-const int MC_NOPS = 7;
+const McOp MC_OPS[] = {{"un", "h", op_un}, {"bin", "hhi", op_bin}, {"dbl", "dddd", op_dbl}, {"ints", "i", op_ints}, {"polyagg", "iii", op_polyagg}, {"setagg", "ii", op_setagg}, {"dblpoly", "dddd", op_dblpoly}, {"polycap", "iiii", op_polycap}};
+const int MC_NOPS = 8;
 
 static U64Vec g_un, g_bin;
 static void ph_un(void *u) {
@@ -538,6 +565,12 @@ static void ph_misc(void *u) {
     for (int kind = 100; kind <= 106; kind++)
         for (int res = 0; res <= 15; res++, idx++)
             if (mc_mine(idx)) MC_RUN(OP_SETAGG, I(kind), I(res));
+    poly_build_anchors();
+    for (int res = 0; res <= 15; res += 2)
+        for (int sh = 1; sh <= 8; sh += 7)
+            for (int an = 0; an < poly_nanchor; an += 37)
+                for (int sc = 1; sc <= 3; sc++, idx++)
+                    if (mc_mine(idx)) MC_RUN(OP_POLYCAP, I(sh), I(an), I(sc), I(res + (an & 1)));
 }
 // ---- sequence BFS: canonical class of an index value
 static uint64_t canon(uint64_t x) {
